@@ -62,7 +62,7 @@ func (c11) Gen(r *rand.Rand, tier string, idx int) *core.Plan {
 	n := 1 + r.IntN(3)
 	for i := 0; i < n; i++ {
 		meta := int64(core.Pick(r, 0, 1, 1, 1, 2, 3, 4, 5, 6, 7))
-		p.Ops = append(p.Ops, core.Op{Kind: "sign", I: []int64{int64(core.Pick(r, 0, 0, 1, 2, 3, 4, 5)), meta, int64(r.IntN(2)), int64(r.IntN(2)), int64(r.IntN(100))}})
+		p.Ops = append(p.Ops, core.Op{Kind: "sign", I: []int64{int64(core.Pick(r, 0, 0, 0, 1, 1, 2, 2, 3, 3, 4, 4, 5, 5, 6, 7)), meta, int64(r.IntN(2)), int64(r.IntN(2)), int64(r.IntN(100))}})
 		if r.IntN(6) == 0 && p.World["store"] >= 2 {
 			p.Ops = append(p.Ops, core.Op{Kind: "reopen"})
 		}
@@ -348,6 +348,10 @@ func (l c11) Exec(env *core.Env) *core.Result {
 				ref = "registry.example/repo@" + digest.FromString("another artifact").String()
 			case 5: // a bare digest that is not the artifact's
 				ref = digest.FromString("another artifact").String()
+			case 6: // ... of another algorithm than the one the repository resolves to
+				ref = "registry.example/repo@" + digest.SHA512.FromString("another artifact").String()
+			case 7:
+				ref = digest.SHA512.FromString("another artifact").String()
 			}
 			var meta map[string]string
 			collide, reserved := false, false
@@ -386,7 +390,7 @@ func (l c11) Exec(env *core.Env) *core.Result {
 					}
 				}
 			}
-			mismatch := strings.HasSuffix(ref, digest.FromString("another artifact").String())
+			mismatch := strings.HasSuffix(ref, digest.FromString("another artifact").String()) || strings.HasSuffix(ref, digest.SHA512.FromString("another artifact").String())
 			metaBefore, cfgBefore := copyMap(opts.UserMetadata), copyMap(opts.PluginConfig)
 			// snapshots
 			var refsBefore map[digest.Digest]ocispec.Manifest
